@@ -3,7 +3,6 @@
 From V.model Require Import Base Deb822Lex Deb822Parse Grammar Lossy Deb822Edit LiveDoc Deb822Store Deb822Handles.
 From V.proofs Require Import BaseP Deb822EditP LiveDocP LiveParaP.
 From V.proofs Require Import Deb822StoreP Deb822StoreOpsP Deb822StoreParaP Deb822StoreDocP.
-Set Default Timeout 60.
 
 (* ------------------------------------------------------------------ two splits of one list *)
 Lemma split_compare {A} (a : list A) : forall c x y b d, a ++ x :: b = c ++ y :: d ->
